@@ -52,3 +52,18 @@ Definition w3l (v : @W3 float) : list float := let '(a, b, c) := v in [a; b; c].
 Definition runWhLoop (G dt soft : float) (na : nat) (m0 : float) (l : list (float * list float * list (list float))) : list float :=
   flat_map (fun o => w3l (fst o) ++ flat_map w3l (snd o))
     (wh_loop FNum G dt soft na 1 m0 (map (fun q => let '(m, p, dps) := q in (m, mkJPf p, map mkJPf dps)) l)).
+
+(* ---- MEGNO bookkeeping *)
+From RV Require Import C16.Megno.
+Definition mkM9 (l : list float) : @M9 float :=
+  match l with
+  | [x; y; z; vx; vy; vz; ax; ay; az] => (x, y, z, vx, vy, vz, ax, ay, az)
+  | _ => (PrimFloat.nan, PrimFloat.nan, PrimFloat.nan, PrimFloat.nan, PrimFloat.nan, PrimFloat.nan, PrimFloat.nan, PrimFloat.nan, PrimFloat.nan)
+  end.
+(* deltad_delta of the MEGNO particles and WHFast's dY *)
+Definition runDD (dt t : float) (ps : list (list float)) : list float :=
+  [deltad_delta FNum (map mkM9 ps); dY_whfast FNum dt t (map mkM9 ps)].
+(* updates (t, dY, dt_done); result: Ys, Yss, mean_t, mean_Y, cov_Yt, var_t, megno at tq, lyapunov *)
+Definition runMegno (l : list (float * float * float)) (tq : float) : list float :=
+  let s := megno_run FNum l in
+  [mYs s; mYss s; mmean_t s; mmean_Y s; mcov s; mvar s; megno_of FNum tq (mYss s); lyapunov_of FNum s].
